@@ -89,6 +89,16 @@ func verifDir() string {
 	return "/verif"
 }
 
+// evidenceDir: where evidence is written. The checker's own test scripts (seeded
+// regressions applied to /repo) redirect it so that /verif/evidence only ever
+// holds results of runs against /repo as committed.
+func evidenceDir() string {
+	if d := os.Getenv("LUAVERIF_EVIDENCE"); d != "" {
+		return d
+	}
+	return filepath.Join(verifDir(), "evidence")
+}
+
 // loadKnown parses /verif/known-findings.txt. Lines:
 //
 //	known: property=C08 key=<rule|construct> :: <what fails>
